@@ -306,18 +306,27 @@ class Flow:
             if e.get("src") == "ForLoopDesugar" and e["arms"] and e["arms"][0]["p"].get("k") == "Bind":
                 cond = cond + ((("loop-enter", e.get("l")), (), True),)
             prev = ()
+            guarded = []          # (constructor set, guard descriptor) of the earlier guarded arms
             for arm in e["arms"]:
                 aenv = dict(env)
                 self.bind(arm["p"], d, aenv)
                 pc = tuple(self.pat_ctors(arm["p"]))
-                # an arm is reached only if the earlier unguarded arms did not match
+                # an arm is reached only if the earlier unguarded arms did not match ...
                 acond = cond + prev + ((d, pc, True),)
+                # ... and if the guard of every earlier arm with the same constructors was false (the bindings of the two patterns denote the same parts of the scrutinee)
+                for gpc, gd in guarded:
+                    if (gpc == pc and pc) or gpc == ("irrefutable",):
+                        acond = acond + ((gd, ("true",), False),)
                 if e.get("src") == "ForLoopDesugar":
                     acond = cond
                 elif "g" not in arm and pc:
                     prev = prev + ((d, pc, False),)
                 if "g" in arm:
                     self.visit(arm["g"], aenv, acond)
+                    gd = self.desc(arm["g"], aenv)
+                    # `_ if guard => ..` (a pattern without constructors and bindings): every later arm runs under the negated guard
+                    guarded.append((("irrefutable",) if arm["p"].get("k") == "Wild" else pc, gd))
+                    acond = acond + ((gd, ("true",), True),)        # the body of a guarded arm runs under its guard
                 self.visit(arm["b"], aenv, acond, tail)
         elif k == "Call":
             for x in e.get("args", []):
